@@ -122,3 +122,59 @@ def block_edge_sizes(tier, cap=None):
     if cap is not None:
         sizes = [n for n in sizes if n <= cap]
     return sizes
+
+
+# ---- memory representations of the same per-event values ------------------------------------------------
+LAYOUTS = ["bigendian", "fortran2d", "transposed2d", "readonly", "strided", "negative_stride"]
+
+
+def as_layout(a, kind):
+    """(array holding the values of the 1-D float64 array `a` in another memory representation,
+        function mapping a result of that shape back to event order) or None when the length does not allow it.
+    bigendian: non-native byte order (astropy returns it for FITS columns); fortran2d / transposed2d: 2-D with the
+    axes permuted in memory; readonly: writeable flag cleared; strided / negative_stride: non-contiguous views."""
+    a = np.asarray(a, dtype=np.float64)
+    n = a.size
+    ident = lambda r: np.asarray(r)
+    if kind == "bigendian":
+        return a.astype(">f8"), ident
+    if kind == "readonly":
+        b = a.copy()
+        b.flags.writeable = False
+        return b, ident
+    if kind == "strided":
+        buf = np.full(2 * n, -99.0)
+        buf[0::2] = a
+        return buf[0::2], ident
+    if kind == "negative_stride":
+        return a[::-1].copy()[::-1], ident
+    r = next((d for d in (2, 3, 5, 7) if n % d == 0 and n > d), None)
+    if r is None:
+        return None
+    q = n // r
+    back = lambda res: np.ascontiguousarray(np.asarray(res)).reshape((n,) + np.asarray(res).shape[2:])
+    if kind == "fortran2d":
+        return np.asfortranarray(a.reshape(r, q)), back
+    if kind == "transposed2d":
+        return np.ascontiguousarray(a.reshape(r, q).T).T, back
+    raise ValueError(kind)
+
+
+def same_values(got, want, rtol=1e-14):
+    """Equality of results computed from the same values held in different memory representations. numpy's
+    vectorised loops (log, exp, power) are chosen by stride and alignment and differ from each other in the last
+    place, so floating-point results are compared to `rtol` (a few ulp; float32: 1e-6), everything else exactly."""
+    got, want = np.asarray(got), np.asarray(want)
+    if got.shape != want.shape:
+        return False
+    if got.dtype.kind != "f" and want.dtype.kind != "f":
+        return bool(np.array_equal(got, want))
+    g, w = got.astype(np.float64), want.astype(np.float64)
+    if got.dtype == np.float32 or want.dtype == np.float32:
+        rtol = max(rtol, 1e-6)
+    fin = np.isfinite(w)
+    if not np.array_equal(fin, np.isfinite(g)):
+        return False
+    if not np.array_equal(g[~fin], w[~fin], equal_nan=True):
+        return False
+    return bool(np.all(np.abs(g[fin] - w[fin]) <= rtol * np.abs(w[fin])))
